@@ -12,6 +12,8 @@
     ('chunks', k, inner)             perform inner (ok / reply / reply-ml / raw) but write its bytes in k pieces
                                      with a hub round trip (gevent.sleep(0.002)) between them; counts as inner
     ('reply-ml', code, [t1, t2..])   a well-formed multi-line reply; counts as ('reply', code)
+    ('reply-exact', code, text)      exactly b'<code> <text>\\r\\n' (no [conn txn marker] tag appended: for a text that
+                                     is empty or only an enhanced status code); counts as ('reply', code)
     ('tlscorrupt',)                  (inside TLS) write a bogus TLS record straight to the file descriptor,
                                      then go silent: the peer's TLS layer fails on its next read
   extra stage
@@ -138,6 +140,8 @@ class Downstream11(Downstream):
             text = inner[2] if len(inner) > 2 else {'2': '2.0.0 fine', '4': '4.0.0 try later',
                                                     '5': '5.0.0 no'}.get(inner[1][0], 'hm')
             return ('%s %s [%s]\r\n' % (inner[1], text, tag)).encode(), inner
+        if k == 'reply-exact':
+            return ('%s %s\r\n' % (inner[1], inner[2])).encode(), ('reply', inner[1])
         if k == 'reply-ml':
             code, texts = inner[1], list(inner[2])
             texts[-1] = '%s [%s]' % (texts[-1], tag)
@@ -171,7 +175,7 @@ class Downstream11(Downstream):
             except (OSError, IOError):
                 pass
             raise EOFError()
-        if k in ('chunks', 'reply-ml'):
+        if k in ('chunks', 'reply-ml', 'reply-exact'):
             pieces, inner = (a[1], a[2]) if k == 'chunks' else (1, a)
             data, counted = self._bytes_of(inner, ok, self._tag(ctx))
             n = max(1, min(pieces, len(data)))
